@@ -14,7 +14,7 @@ use ark_ec::{
     scalar_mul::variable_base::{ChunkedPippenger, HashMapPippenger},
     CurveGroup, PrimeGroup, VariableBaseMSM,
 };
-use ark_ff::{BigInteger, Field, PrimeField, UniformRand, Zero};
+use ark_ff::{AdditiveGroup, BigInteger, Field, PrimeField, UniformRand, Zero};
 use ark_serialize::CanonicalSerialize;
 use ark_test_curves::bls12_381 as bls;
 use ark_test_curves::bn384_small_two_adicity as bn384;
@@ -240,7 +240,13 @@ fn gen_hist(rng: &mut Rng) -> (u64, u64, u64) {
         0 => rng.below(3),
         1..=5 => rng.below(24),
         6..=8 => rng.below(48),
-        _ => rng.range(48, 200),
+        _ => {
+            if rng.chance(1, 6) {
+                rng.range(257, 700)
+            } else {
+                rng.range(48, 200)
+            }
+        },
     };
     let buf = match rng.below(9) {
         0 => 1,
@@ -255,6 +261,7 @@ fn gen_hist(rng: &mut Rng) -> (u64, u64, u64) {
     };
     // a long history with a tiny buffer means one full bucket pass per add: keep those rare
     let buf = if n > 60 && buf < 4 && !rng.chance(1, 4) { rng.range(8, 40) } else { buf };
+    let buf = if n > 256 && buf < 100 { rng.range(100, 600) } else { buf };
     let group = *rng.pick(&[0u64, 0, 0, 1, 2, 3, 4, 4]);
     let psize = rng.range(1, 8) as u64;
     (n as u64, buf as u64, group | (rng.below(4) as u64) << 4 | psize << 8)
@@ -285,7 +292,12 @@ fn run_direct_g<G: Bridge>(op: &Op) -> Vec<u8> {
         },
         1 => ser(&G::msm_unchecked(&b, &s).into_affine()),
         2 => ser(&G::msm_bigint(&b, &bi).into_affine()),
-        3 => ser(&G::msm_chunks(&&b[..k], &&s[..k]).into_affine()),
+        3 => {
+            // msm_chunks requires #scalars <= #bases and pairs the scalars with the LAST
+            // #scalars bases ("align the streams")
+            let sk = &s[..k];
+            ser(&G::msm_chunks(&&b[..], &sk).into_affine())
+        },
         4 => ser(&verif_hooks::msm_bigint_plain::<G>(&b, &bi).into_affine()),
         _ => ser(&verif_hooks::msm_bigint_signed::<G>(&b, &bi).into_affine()),
     }
@@ -297,7 +309,8 @@ fn expect_direct_g<G: Bridge>(op: &Op) -> Option<Vec<u8>> {
         return Some(format!("err:{}", b.len().min(s.len())).into_bytes());
     }
     let k = b.len().min(s.len());
-    let pairs: Vec<_> = b[..k].iter().zip(&s[..k]).map(|(p, x)| (G::coords(p), to_biguint(x))).collect();
+    let off = if (op.c >> 4) & 0xf == 3 { b.len() - k } else { 0 };
+    let pairs: Vec<_> = b[off..off + k].iter().zip(&s[..k]).map(|(p, x)| (G::coords(p), to_biguint(x))).collect();
     let sum: G::R = refmodel::naive_msm(&pairs)?;
     Some(ser(&G::from_coords(sum.to_affine()?)))
 }
@@ -309,11 +322,17 @@ fn expect_direct(op: &Op) -> Option<Vec<u8>> {
     by_group!(op, expect_direct_g)
 }
 fn gen_direct(rng: &mut Rng) -> (u64, u64, u64) {
-    let n = match rng.below(8) {
-        0 => rng.below(3),
-        1..=3 => rng.range(28, 36),
-        4 | 5 => rng.below(28),
-        _ => rng.range(36, 120),
+    // the window width is 3 below 32 terms and ln(n)+2 above: 5 (32..), 6 (64..), 7 (256),
+    // 8 (257..1024), 9 (..2048), 10 (..8192); every class is visited
+    let n = match rng.below(16) {
+        0 | 1 => rng.below(3),
+        2..=5 => rng.range(28, 36),
+        6..=8 => rng.below(28),
+        9..=11 => rng.range(36, 120),
+        12 => rng.range(120, 257),
+        13 => rng.range(257, 600),
+        14 => rng.range(600, 1100),
+        _ => rng.range(1100, 2300),
     };
     let m = if rng.chance(3, 4) { u64::MAX } else { rng.below(n + 4) as u64 };
     let group = *rng.pick(&[0u64, 0, 1, 2, 3, 4]);
@@ -370,11 +389,98 @@ fn gen_digits(rng: &mut Rng) -> (u64, u64, u64) {
     (rng.range(1, 40) as u64, rng.range(1, 17) as u64, 0)
 }
 
+// ---------------------------------------------------------------- the target group as an MSM group
+
+type Gt = ark_ec::pairing::PairingOutput<bls::Bls12_381>;
+
+fn gt_inputs(op: &Op) -> (Vec<Gt>, Vec<(usize, bls::Fr)>) {
+    let mut rng = Rng::new(op.seed);
+    let g = Gt::generator();
+    let psize = (((op.c >> 8) & 0xff) as usize).clamp(1, 6);
+    let p0 = g * bls::Fr::rand(&mut rng);
+    let pool: Vec<Gt> = (0..psize)
+        .map(|i| match i {
+            0 => p0,
+            1 => -p0,
+            2 => Gt::zero(),
+            3 => g,
+            _ => g * bls::Fr::rand(&mut rng),
+        })
+        .collect();
+    let adds = (0..op.a as usize).map(|_| (rng.below(psize), edge_scalar::<bls::Fr>(&mut rng))).collect();
+    (pool, adds)
+}
+
+fn run_gt(op: &Op) -> Vec<u8> {
+    let (pool, adds) = gt_inputs(op);
+    let buf = op.b as usize;
+    match (op.c >> 4) & 0xf {
+        0 => {
+            let mut acc = ChunkedPippenger::<Gt>::new(buf);
+            for (bi, s) in &adds {
+                acc.add(pool[*bi], s.into_bigint());
+            }
+            ser(&acc.finalize())
+        },
+        1 => {
+            let mut acc = HashMapPippenger::<Gt>::new(buf);
+            for (bi, s) in &adds {
+                acc.add(pool[*bi], *s);
+            }
+            ser(&acc.finalize())
+        },
+        v => {
+            let b: Vec<Gt> = adds.iter().map(|(bi, _)| pool[*bi]).collect();
+            let s: Vec<bls::Fr> = adds.iter().map(|(_, s)| *s).collect();
+            let bi: Vec<_> = s.iter().map(|x| x.into_bigint()).collect();
+            match v {
+                2 => ser(&Gt::msm(&b, &s).unwrap()),
+                3 => ser(&Gt::msm_bigint(&b, &bi)),
+                4 => ser(&verif_hooks::msm_bigint_plain::<Gt>(&b, &bi)),
+                _ => ser(&verif_hooks::msm_bigint_signed::<Gt>(&b, &bi)),
+            }
+        },
+    }
+}
+
+/// Reference: the target group written multiplicatively in Fq12 — plain
+/// square-and-multiply on field operations (no cyclotomic shortcuts).
+fn expect_gt(op: &Op) -> Option<Vec<u8>> {
+    let (pool, adds) = gt_inputs(op);
+    let r = modulus::<bls::Fr>();
+    let mut per_base: Vec<BigUint> = vec![BigUint::default(); pool.len()];
+    for (bi, s) in &adds {
+        per_base[*bi] = (&per_base[*bi] + to_biguint(s)) % &r;
+    }
+    let mut acc = bls::Fq12::ONE;
+    for (p, k) in pool.iter().zip(per_base) {
+        let mut t = bls::Fq12::ONE;
+        for i in (0..k.bits()).rev() {
+            t = t.square();
+            if k.bit(i) {
+                t *= p.0;
+            }
+        }
+        acc *= t;
+    }
+    Some(ser(&ark_ec::pairing::PairingOutput::<bls::Bls12_381>(acc)))
+}
+fn gen_gt(rng: &mut Rng) -> (u64, u64, u64) {
+    let n = match rng.below(4) {
+        0 => rng.below(4),
+        1 => rng.range(28, 36),
+        _ => rng.below(40),
+    };
+    let buf = *rng.pick(&[0usize, 1, 2, 3, n, n + 1, 7]);
+    (n as u64, buf as u64, (rng.below(6) as u64) << 4 | (rng.range(1, 6) as u64) << 8)
+}
+
 pub fn kinds() -> Vec<KindInfo> {
     vec![
         KindInfo { name: "hist_chunked", prop: "C05", weight: 10, gen: gen_hist, run: run_chunked, expect: Some(expect_hist), doc: "ChunkedPippenger history replayed on up to 8 prefixes; a=#adds b=buffer size c: bits0-3 group (G1,G2,secp256k1,bn384 G1,Jubjub), bit4 with_size, bit5 add by reference, bits8+ size of the base pool" },
         KindInfo { name: "hist_hashmap", prop: "C05", weight: 10, gen: gen_hist, run: run_hashmap, expect: Some(expect_hist), doc: "HashMapPippenger history replayed on up to 8 prefixes; parameters as hist_chunked" },
         KindInfo { name: "msm_direct", prop: "C05", weight: 10, gen: gen_direct, run: run_direct, expect: Some(expect_direct), doc: "a=#bases b=#scalars (MAX=same) c: bits0-3 group, bits4-7 entry point (msm, msm_unchecked, msm_bigint, msm_chunks, plain-bucket hook, signed-digit hook)" },
+        KindInfo { name: "gt_msm", prop: "C05", weight: 2, gen: gen_gt, run: run_gt, expect: Some(expect_gt), doc: "PairingOutput<Bls12_381> as the MSM group: a=#pairs b=buffer size c: bits4-7 entry point (ChunkedPippenger, HashMapPippenger, msm, msm_bigint, plain-bucket hook, signed-digit hook), bits8+ pool size" },
         KindInfo { name: "digits", prop: "C05", weight: 3, gen: gen_digits, run: run_digits, expect: Some(expect_digits), doc: "make_digits hook: a=#scalars b=window width; digits must recompose to the scalar" },
     ]
 }
